@@ -503,6 +503,53 @@ def unit_finish_collision(U):
                     [], z3.BoolVal(len(ins) == 1 and not dels), {}, replay=replay)
 
 
+def unit_bounded_verbose(U):
+    """Bounded: progress reporting does not take part in the import: create_db(..., verbose=True) on a file large enough for
+    the percentage counters to repeat (160 transcripts / 80 genes; a GFF3 file of 300 features) gives the same database as
+    verbose=False"""
+    import io
+    import contextlib
+    import warnings
+    import logging
+    fails, cases = [], 0
+    gtf, gff = [], []
+    for g in range(80):
+        for t in range(2):
+            for x in range(2):
+                a = 1000 * g + 100 * t + 20 * x + 1
+                gtf.append('c%d\ts\texon\t%d\t%d\t.\t+\t.\tgene_id "G%03d"; transcript_id "G%03d.T%d";' % (g % 3, a, a + 9, g, g, t))
+        gff.append("c\ts\tgene\t%d\t%d\t.\t+\t.\tID=g%d" % (1000 * g + 1, 1000 * g + 500, g))
+        gff.append("c\ts\tmRNA\t%d\t%d\t.\t+\t.\tID=m%d;Parent=g%d" % (1000 * g + 1, 1000 * g + 500, g, g))
+        gff.append("c\ts\texon\t%d\t%d\t.\t+\t.\tID=e%d;Parent=m%d" % (1000 * g + 1, 1000 * g + 100, g, g))
+
+    def snapshot(db):
+        return (sorted((f.id, f.featuretype, f.seqid, f.start, f.end, f.strand) for f in db.all_features()),
+                sorted(tuple(r) for r in db.execute("SELECT parent, child, level FROM relations")))
+    lvl = logging.getLogger("gffutils.create").level
+    try:
+        for name, text in (("gtf", "\n".join(gtf) + "\n"), ("gff3", "\n".join(gff) + "\n")):
+            with warnings.catch_warnings():
+                warnings.simplefilter("ignore")
+                with contextlib.redirect_stderr(io.StringIO()):
+                    quiet = snapshot(gffutils.create_db(text, ":memory:", from_string=True, verbose=False))
+                for verbose in (True, "debug"):
+                    cases += 1
+                    try:
+                        with contextlib.redirect_stderr(io.StringIO()):
+                            loud = snapshot(gffutils.create_db(text, ":memory:", from_string=True, verbose=verbose))
+                    except Exception as e:
+                        fails.append({"case": {"format": name, "verbose": verbose}, "expected": "the database of verbose=False", "observed": repr(e)})
+                        continue
+                    if loud != quiet:
+                        missing = sorted(set(quiet[0]) - set(loud[0]))[:5]
+                        fails.append({"case": {"format": name, "verbose": verbose, "features": len(quiet[0])}, "expected": "the database of verbose=False (%d features, %d relations)" % (len(quiet[0]), len(quiet[1])),
+                                      "observed": "%d features, %d relations; missing e.g. %r" % (len(loud[0]), len(loud[1]), missing)})
+    finally:
+        logging.getLogger("gffutils.create").setLevel(lvl)
+    U.bounded_result("C03.bounded.verbose", "create_db(verbose=True / 'debug') stores the same features and relations as verbose=False",
+                     "a GTF file of 320 exon lines (80 genes x 2 transcripts; 240 inferred features) and a GFF3 file of 240 lines, verbose True and 'debug'", cases, fails)
+
+
 def unit_gtf_init(U):
     """the GTF importer keeps the custom keys and the subfeature type exactly as given (they are compared with attribute keys and
     with the featuretype column as they stand): _GTFDBCreator.__init__ with symbolic strings stores those very strings"""
@@ -570,7 +617,7 @@ def _unit_gtf_init1(U, variant, prefix="C03"):
         U.prove("%s.gtf.init.keys[%s]#p%d" % (prefix, variant, p.index), "transcript_key, gene_key and subfeature are stored as given (no case folding, stripping or defaulting); the id_spec is the one given, entry by entry - the keys that define the RELATIONS do not change which attribute is the primary key", [], z3.BoolVal(bool(ok)), {}, replay=replay)
 
 
-UNITS = [("gtf.init", unit_gtf_init), ("gtf.init.awkward", unit_gtf_init_awkward), ("block", unit_block), ("finish", unit_finish), ("finish_collision", unit_finish_collision), ("route", unit_route), ("driving_query", unit_driving_query)]
+UNITS = [("bounded.verbose", unit_bounded_verbose), ("gtf.init", unit_gtf_init), ("gtf.init.awkward", unit_gtf_init_awkward), ("block", unit_block), ("finish", unit_finish), ("finish_collision", unit_finish_collision), ("route", unit_route), ("driving_query", unit_driving_query)]
 try:
     from standins import C03 as _S
     UNITS = UNITS + list(_S.UNITS)
